@@ -522,8 +522,10 @@ func main() {
 	for i := 0; i < r.Pick(6, 60); i++ {
 		storm(r, in, i, r.Pick(40, 80))
 	}
+	overlapAll(r)
 	r.Sample(map[string]interface{}{"scenario": "E-cancelled", "schedule": []string{"open A", "hold get.E", "open B (cancels A, stores B)", "old handler parked at E", "send -> must arrive on B", "release E (old handler deletes its registration)", "send -> must still arrive on B"}})
 	r.Sample(map[string]interface{}{"scenario": "H-T", "schedule": []string{"open A", "hold get.H", "open B: headers flushed?", "if B's headers are at the peer while the handler is parked before the table store: send -> must arrive on B", "release"}})
-	r.Finish("one Streamable session, listening streams opened / closed / reopened by a raw peer; schedules enumerated at the instrumented points get.H (new handler before the table store), get.T (after it), get.E (old handler woke, before its table delete): send placed after 'new headers received' in every gap {before store, after store before old delete, after old delete, old stream closed by its peer before/while the new one registers}; a writer parked inside an event on the old stream (holding its write lock) while the old peer leaves and the successor registers, alone and with 1-3 further notifications / server requests queued on the old stream's lock behind the old handler (stale stream held across the reconnect); sequential reopen chains; free-running reconnect storms with seeded delays at the three points and concurrent senders. Every send made after the new stream's headers were received must succeed and arrive on that stream only. Distinct = (scenario, gap) judged.",
-		[]string{"a schedule that the implementation makes impossible (headers not visible before the table store) is recorded as not realisable, not as a failure", "delivery is awaited up to 5 s on loopback"})
+	r.Finish("one Streamable session, listening streams opened / closed / reopened by a raw peer; schedules enumerated at the instrumented points get.H (new handler before the table store), get.T (after it), get.E (old handler woke, before its table delete): send placed after 'new headers received' in every gap {before store, after store before old delete, after old delete, old stream closed by its peer before/while the new one registers}; a writer parked inside an event on the old stream (holding its write lock) while the old peer leaves and the successor registers, alone and with 1-3 further notifications / server requests queued on the old stream's lock behind the old handler (stale stream held across the reconnect); sequential reopen chains; free-running reconnect storms with seeded delays at the three points and concurrent senders. Every send made after the new stream's headers were received must succeed and arrive on that stream only. "+
+		"Several streams of one session set up at the same time (each schedule on its own server): [stream A open;] 2/3/4 GETs parked together at get.H, released in enumerated orders one by one (next release after the previous headers) or in a burst, superseded handlers optionally parked at get.T/get.E and let go in a seeded order, judged sends between the steps and unjudged notifications / server requests in flight; seeded walks over {start a GET, release a parked GET, let a parked handler go, send}; free-running rounds of 2-4 concurrent openers with seeded delays. After all set-ups finished and all headers were received: a send succeeds and arrives on exactly one stream which no other opened stream clearly follows (X clearly precedes Y when X's headers were received before Y was started; any single winner among truly concurrent opens), every other opened stream was ended by the server, exactly one stream is registered, a further send arrives on the survivor only. Distinct = (scenario, gap) judged, resp. (overlap class[, walk pattern]) judged.",
+		[]string{"a schedule that the implementation makes impossible (headers not visible before the table store) is recorded as not realisable, not as a failure", "delivery is awaited up to 5 s on loopback (10 s in the overlap schedules)", "a superseded stream that stays open is reported only when a later send/deliver cycle on the owning stream completed meanwhile (15 s watchdog first); an open that merely answers slowly makes the schedule inconclusive"})
 }
